@@ -46,7 +46,8 @@ impl<KT: DbMapKeyType> FileDbXxxInner<KT> {
             key_file,
             val_file,
             htx_file,
-            dirty: false,
+            // the files may have just been created: their headers are in the buffers only.
+            dirty: true,
             _phantom: std::marker::PhantomData,
         })
     }
@@ -249,24 +250,20 @@ impl<KT: DbMapKeyType> DbXxxBase for FileDbXxxInner<KT> {
     }
     #[inline]
     fn sync_all(&mut self) -> Result<()> {
-        if self.is_dirty() {
-            // save all data and meta
-            self.val_file.sync_all()?;
-            self.key_file.sync_all()?;
-            self.htx_file.sync_all()?;
-            self.dirty = false;
-        }
+        // save all data and meta. not only if dirty: an earlier flush() is not a sync.
+        self.val_file.sync_all()?;
+        self.key_file.sync_all()?;
+        self.htx_file.sync_all()?;
+        self.dirty = false;
         Ok(())
     }
     #[inline]
     fn sync_data(&mut self) -> Result<()> {
-        if self.is_dirty() {
-            // save all data
-            self.val_file.sync_data()?;
-            self.key_file.sync_data()?;
-            self.htx_file.sync_data()?;
-            self.dirty = false;
-        }
+        // save all data. not only if dirty: an earlier flush() is not a sync.
+        self.val_file.sync_data()?;
+        self.key_file.sync_data()?;
+        self.htx_file.sync_data()?;
+        self.dirty = false;
         Ok(())
     }
 }
@@ -286,6 +283,7 @@ impl<KT: DbMapKeyType> DbXxxObjectSafe<KT> for FileDbXxxInner<KT> {
     }
     #[inline]
     fn put_kt(&mut self, key_kt: &KT, value: &[u8]) -> Result<()> {
+        self.dirty = true;
         let hash = HashValue::new(key_kt.hash_value());
         let opt = self.find_in_hash_buckets_kt(hash, key_kt)?;
         if let Some((key_offset, _prev_key_offset)) = opt {
@@ -314,6 +312,7 @@ impl<KT: DbMapKeyType> DbXxxObjectSafe<KT> for FileDbXxxInner<KT> {
         let hash = HashValue::new(key_kt.hash_value());
         let opt = self.find_in_hash_buckets_kt(hash, key_kt)?;
         if let Some((key_offset, _prev_key_offset)) = opt {
+            self.dirty = true;
             let key_piece = self.key_file.read_piece(key_offset)?;
             let value = self
                 .val_file
